@@ -136,7 +136,17 @@ func VerifC06() {
 	}
 	vfsSeal()
 	verifContext("C06.mkdir")
-	err := MkdirFromMarkdown(&verifReader{lines: rows}, WithTargetDir(vfsTarget()), WithFileExtensions(exts))
+	// the target directory as callers write it: plain, with a trailing separator, or with a './' in front
+	target := vfsTarget()
+	switch verifChoose("targetSpelling", 0, 2) {
+	case 1:
+		target += "/"
+	case 2:
+		if !verifNative() {
+			target = "./" + target // (natively the target is an absolute path)
+		}
+	}
+	err := MkdirFromMarkdown(&verifReader{lines: rows}, WithTargetDir(target), WithFileExtensions(exts))
 	if existing >= 0 {
 		verifAssert(err == ErrExistPath, "C06.exists.err")
 		verifAssert(vfsTouched() == 0, "C06.exists.unchanged")
